@@ -28,6 +28,8 @@ inductive MsgKind
   | server_hello_done | client_key_exchange | certificate_verify
   | ccs | finished | new_session_ticket | next_protocol
   | encrypted_extensions | end_of_early_data | key_update
+  /-- CertificateStatus (status_request): tlslite-ng never negotiates it on the receive side -/
+  | certificate_status
   | alert_warning | alert_fatal | close_notify | no_certificate_alert
   | heartbeat | app_data | empty_app_data
   deriving DecidableEq, Repr, Inhabited
@@ -38,7 +40,7 @@ def all : List MsgKind :=
   [hello_request, client_hello, server_hello, hrr, certificate, compressed_certificate,
    server_key_exchange, certificate_request, server_hello_done, client_key_exchange,
    certificate_verify, ccs, finished, new_session_ticket, next_protocol, encrypted_extensions,
-   end_of_early_data, key_update, alert_warning, alert_fatal, close_notify, no_certificate_alert,
+   end_of_early_data, key_update, certificate_status, alert_warning, alert_fatal, close_notify, no_certificate_alert,
    heartbeat, app_data, empty_app_data]
 
 /-- record content type `alert` -/
@@ -61,7 +63,7 @@ def name : MsgKind → String
   | certificate_verify => "certificate_verify" | ccs => "ccs" | finished => "finished"
   | new_session_ticket => "new_session_ticket" | next_protocol => "next_protocol"
   | encrypted_extensions => "encrypted_extensions" | end_of_early_data => "end_of_early_data"
-  | key_update => "key_update" | alert_warning => "alert_warning" | alert_fatal => "alert_fatal"
+  | key_update => "key_update" | certificate_status => "certificate_status" | alert_warning => "alert_warning" | alert_fatal => "alert_fatal"
   | close_notify => "close_notify" | no_certificate_alert => "no_certificate_alert"
   | heartbeat => "heartbeat" | app_data => "app_data" | empty_app_data => "empty_app_data"
 
